@@ -13,6 +13,7 @@ CORE = ["crypto_core/ed25519/core_ed25519.c", "crypto_scalarmult/ed25519/ref10/s
 STUBS = ["ideal_ed25519.c", "ideal_hash.c", "rng.c", "misuse.c", "libc.c", "x86_builtins.c"]
 
 
+E2_EQUIV = ["h2c-xmd-spec"]
 E2_LIMB = ["fe25519-51", "sc25519", "sc25519-invert", "edwards-group-ops", "ed25519-scalarmult-alg"]
 
 
@@ -40,7 +41,7 @@ def obligations(tier):
     H2C = ["crypto_core/ed25519/core_h2c.c", "crypto_core/ed25519/core_ed25519.c", "crypto_core/ed25519/core_ristretto255.c", "sodium/utils.c", "crypto_verify/verify.c"]
     shapes = [(2, 48, 5, 3), (1, 48, 5, 3), (2, 96, 0, 0), (1, 96, 17, 40), (2, 64, 5, 40), (1, 64, 0, 3), (1, 33, 5, 3)]
     if tier == "thorough":
-        shapes += [(2, 48, 255, 3), (2, 48, 256, 3), (1, 48, 256, 0), (1, 96, 255, 1), (2, 130, 5, 3), (1, 65, 3, 0)]
+        shapes += [(2, 130, 5, 3), (1, 65, 3, 0)]   # contexts >= 255 bytes: E2 target h2c-xmd-spec (CBMC does not finish there)
     for halg, hl, cl, ml in shapes:
         obs.append(Ob("h2c-xmd-sha%d-len%d-ctx%d-m%d" % (256 if halg == 1 else 512, hl, cl, ml), "C07/h2c.c", units=H2C, stubs=STUBS,
                       defs={"PART": 0, "HALG": halg, "HLEN": hl, "CTXLEN": cl, "MLEN": ml}, unwind=340, timeout=600, mem=6, family="hash-to-group",
